@@ -110,10 +110,23 @@ def generate(rng, tier):
 def _generate_threads(rng):
     programs = []
     for _ in range(rng.randint(2, 4)):
-        if rng.random() < 0.6:
+        r = rng.random()
+        if r < 0.4:
             scenario = C01.generate(rng, "quick")["scenario"]
-        else:
+        elif r < 0.65:
             scenario = C10.generate(rng, "quick")["scenario"]
+        else:
+            # an activity that runs complete nested simulations in between its own steps
+            actors = [_simple_actor(rng, "r%d" % i, length=rng.randint(1, 3))
+                      for i in range(rng.randint(1, 2))]
+            for _ in range(rng.randint(1, 2)):
+                host = actors[rng.randrange(len(actors))]
+                nested = {"op": "nested_run", "start": rng.choice([0, 5, -1]),
+                          "roots": [{"delays": [rng.choice([0.5, 1, 3])
+                                                for _ in range(rng.randint(0, 2))], "fail": False}
+                                    for _ in range(rng.randint(1, 2))]}
+                host["ops"].insert(rng.randint(0, len(host["ops"])), nested)
+            scenario = {"start": rng.choice([0, 2]), "resources": {}, "actors": actors}
         programs.append(scenario)
     return {"property": ID, "mode": "threads", "programs": programs,
             "baton_seed": rng.randrange(10 ** 9), "scenario": {"actors": []},
